@@ -2,6 +2,7 @@ package main
 
 import (
 	"fmt"
+	"os"
 	"go/constant"
 	"go/token"
 	"go/types"
@@ -479,9 +480,11 @@ func (in *Interp) global(g *ssa.Global) *value {
 	return p
 }
 
+var initProf = os.Getenv("SYMGO_INITPROF") != ""
+
 var skipInit = map[string]bool{"errors": true, "strings": true, "bytes": true, "sort": true, "strconv": true, "math": true, "math/bits": true,
 	"slices": true, "cmp": true, "github.com/pkg/errors": true, "internal/bytealg": true, "internal/stringslite": true, "internal/itoa": true,
-	"encoding/binary": true, "github.com/go-jose/go-jose/v3/json": true, "github.com/go-jose/go-jose/v3/cipher": true, "unicode/utf8": true, "unicode/utf16": true, "container/list": true}
+	"encoding/binary": true, "github.com/go-jose/go-jose/v3/json": true, "github.com/go-jose/go-jose/v3/cipher": true, "unicode/utf8": true, "unicode/utf16": true, "unicode": true, "container/list": true}
 
 // ensureInit runs the package initialiser of executed packages (once per path).
 func (in *Interp) ensureInit(p *ssa.Package) {
@@ -503,6 +506,12 @@ func (in *Interp) ensureInit(p *ssa.Package) {
 	}
 	if initFn := p.Func("init"); initFn != nil && initFn.Blocks != nil {
 		save := in.curFrame
+		steps0 := in.steps
+		defer func() {
+			if initProf {
+				fmt.Fprintf(os.Stderr, "INIT %s: %d steps (inclusive)\n", p.Pkg.Path(), in.steps-steps0)
+			}
+		}()
 		func() {
 			defer func() {
 				if r := recover(); r != nil {
